@@ -461,6 +461,14 @@ class TransactionManager(Elaboratable):
         # step 5: construct merged transactions
         with DependencyContext(DependencyManager()):
             for group in final_simultaneous:
+                # A body nested in a body it is simultaneous with (a `condition` branch) cannot run without it.
+                if any(
+                    not group & frozenset(method_map.transactions_for(dep))
+                    for transaction in group
+                    for dep in ready_dependencies[transaction]
+                    if dep in transaction.simultaneous_list
+                ):
+                    continue
                 name = "_".join([t.name for t in group])
                 with Transaction(name=name).body(m):
                     for transaction in group:
